@@ -475,6 +475,17 @@ def rule_hd_except(cx, rep, port):
                 continue
             v = d.value
             elts = []
+            # the mapping may sit inside ordering / copying wrappers: sorted(<m>), <m>.sort(cmp), list(<m>), Array.from(<m>)
+            peeled = []
+            while True:
+                if isinstance(v, ast.Call) and isinstance(v.func, ast.Attribute) and v.func.attr in ('sort', 'slice', 'toSorted') and isinstance(v.func.value, (ast.Call, ast.ListComp)):
+                    peeled.append(v)
+                    v = v.func.value
+                elif isinstance(v, ast.Call) and dotted(v.func) in ('sorted', 'list', 'Array.from') and v.args and isinstance(v.args[0], (ast.Call, ast.ListComp)):
+                    peeled.append(v)
+                    v = v.args[0]
+                else:
+                    break
             if isinstance(v, ast.ListComp):
                 elts = [v.elt]
             elif isinstance(v, ast.Call) and isinstance(v.func, ast.Attribute) and v.func.attr == 'map' and len(v.args) == 1:
@@ -486,7 +497,7 @@ def rule_hd_except(cx, rep, port):
                 elif fn is not None:
                     elts = [r.value for r in ast.walk(fn) if isinstance(r, ast.Return) and r.value is not None]
             if elts and all(isinstance(e_, ast.Attribute) and e_.attr == 'index' for e_ in elts):
-                mapped = (d, elts)
+                mapped = (d, elts, peeled)
         if mapped is None:
             rep.undecided('index source', fd, 'collection of the EXCEPT indices not recognised')
             return
@@ -510,6 +521,8 @@ def rule_hd_except(cx, rep, port):
     src_ok = (isinstance(src, ast.Name) and any(isinstance(d, ast.Assign) and is_name(d.targets[0], src.id) and map_param in names_in(d.value) for d in walk_no_nested(fd))) or map_param in names_in(src)
     rep.decide(src_ok, 'index source', idx[0] if mapped is None else mapped[0], 'indices come from the variable map', 'EXCEPT indices do not come from the variable map entries')
     srt = [c for c in walk_no_nested(fd) if isinstance(c, ast.Call) and ((dotted(c.func) == 'sorted' and c.args and flows_from(c.args[0], L)) or (isinstance(c.func, ast.Attribute) and c.func.attr == 'sort' and flows_from(c.func.value, L)))]
+    if mapped is not None:
+        srt += [c for c in mapped[2] if (dotted(c.func) == 'sorted') or (isinstance(c.func, ast.Attribute) and c.func.attr in ('sort', 'toSorted'))]
     rep.decide(len(srt) >= 1, 'index order', srt[0] if srt else fd, 'skip indices are sorted', 'skip indices are not sorted')
     proj = [c for c in walk_no_nested(fd) if isinstance(c, ast.Call) and dotted(c.func) == 'select_except' and c.args and is_name(c.args[0], hdr_param)]
     rets = [r for r in walk_no_nested(fd) if isinstance(r, ast.Return) and isinstance(r.value, (ast.Tuple, ast.List)) and len(r.value.elts) == 2]
